@@ -221,11 +221,20 @@ Section CountRel.
       destruct (tinsert _ _ _ v); cnt_close.
     Qed.
 
-    Lemma native_minmax_R less it kf s : nres_R (cr s) (native_minmax F P reenter self less it kf s).
+    Lemma snapshot_cnt s t s' ct : snapshot F s t = Some (s', ct) -> cr s' = cr s.
+    Proof.
+      unfold snapshot. destruct (titer _ t) as [l|]; [|discriminate].
+      destruct (salloc s _) as [s1 c] eqn:E1. destruct (insert_pairs _ _ l) as [ct'|]; [|discriminate].
+      intros H. injection H as <- <-. apply salloc_cnt in E1. unfold cr in *. cbn in *. exact E1.
+    Qed.
+
+    Lemma native_minmax_R less it kf s0 : nres_R (cr s0) (native_minmax F P reenter self less it kf s0).
     Proof.
       unfold native_minmax. destruct it; try cnt_close.
-      destruct (hget (st_heap s) a) as [[t| | | | |]|]; try cnt_close.
-      destruct (titer _ t) as [[|[k0 v0] rest]|]; try cnt_close.
+      destruct (hget (st_heap s0) a) as [[t| | | | |]|]; try cnt_close.
+      destruct (snapshot F s0 t) as [[s entries]|] eqn:Esn; [|cnt_close].
+      apply snapshot_cnt in Esn. rewrite <- Esn. clear Esn.
+      destruct (titer _ entries) as [[|[k0 v0] rest]|]; try cnt_close.
       destruct (spush s v0) as [s1|] eqn:E1; [|cnt_close].
       destruct (spush s1 k0) as [s2|] eqn:E2; [|cnt_close].
       pose proof (Hrf kf s2) as H.
@@ -233,8 +242,7 @@ Section CountRel.
       assert (Hc3 : R (cr s) (cr s3)) by cnt_close.
       pose proof (@minmax_go_R less kf rest 1 0 key0 s3 _ Hc3) as Hm.
       destruct (minmax_go F P reenter self less kf rest 1 0 key0 s3) as [i s4|r]; [|exact Hm].
-      destruct (hget (st_heap s4) a) as [[t'| | | | |]|]; try (cbn [nres_R]; exact Hm).
-      destruct (tget _ t' _); [|cbn [nres_R]; exact Hm].
+      destruct (tget _ entries _); [|cbn [nres_R]; exact Hm].
       apply make_row_R. exact Hm.
     Qed.
 
@@ -254,11 +262,13 @@ Section CountRel.
       destruct (sort_keys P reenter self kf rest s3); exact IH.
     Qed.
 
-    Lemma native_sorted_R it kf s : nres_R (cr s) (native_sorted F P reenter self it kf s).
+    Lemma native_sorted_R it kf s0 : nres_R (cr s0) (native_sorted F P reenter self it kf s0).
     Proof.
       unfold native_sorted. destruct it; try cnt_close.
-      destruct (hget (st_heap s) a) as [[t| | | | |]|]; try cnt_close.
-      destruct (titer _ t) as [l|]; [|cnt_close].
+      destruct (hget (st_heap s0) a) as [[t| | | | |]|]; try cnt_close.
+      destruct (snapshot F s0 t) as [[s entries]|] eqn:Esn; [|cnt_close].
+      apply snapshot_cnt in Esn. rewrite <- Esn. clear Esn.
+      destruct (titer _ entries) as [l|]; [|cnt_close].
       pose proof (@sort_keys_R kf l s _ (R_refl (cr s))) as Hk.
       destruct (sort_keys P reenter self kf l s) as [keyed s1|r]; [|exact Hk].
       destruct (stable_sort _ _ _ _); [|cbn [nres_R]; exact Hk].
@@ -393,11 +403,12 @@ Section CountRel.
                 | |- context [match ?x with _ => _ end] => destruct x eqn:?
                 end; cnt_close.
   Qed.
-  Lemma i_46_R : forall opc ip0 ip s, sres_R (cr s) (i_46 opc ip0 ip s).
+  Lemma i_46_R : forall opc ip0 ip s, sres_R (cr s) (i_46 P opc ip0 ip s).
   Proof.
-    intros opc ip0 ip s; unfold i_46.
-    destruct (scount s =? 0); [cnt_close|].
-    pose proof (close_upvalues_from_cnt (scount s - 1) s) as Hcl.
+    intros opc ip0 ip s; unfold i_46; cbv zeta.
+    destruct (op_u32 P ip) as [idx|]; [|cnt_close].
+    destruct (top_offset s) as [off|]; [|cnt_close].
+    pose proof (close_upvalues_from_cnt (off + N.to_nat idx) s) as Hcl.
     destruct (close_upvalues_from _ _); cnt_close.
   Qed.
 
